@@ -89,15 +89,19 @@ def frame(ty, payload, rng, tform=None, lform=None, lendelta=0):
 
 class C02(Prop):
     id = "C02"
-    claim = False
     modules = ["H3.Props.C02"]
     engines = ["frame", "fs"]
     design_ref = "DESIGN.md section 7, C02 and Appendix B.1"
-    level_text = ("Lean theorems over models of Frame::decode, FrameDecoder::decode, FrameStream::{poll_next,poll_data}, "
-                  "BufList advance/take_chunk: Frame::decode is the RFC 9114 §7.1 segmentation with the §7.2 payload grammar; "
-                  "Incomplete(n) is a sound lower bound; for every byte string, every cutting into chunks with Pending anywhere "
-                  "and every API call sequence the observations are those of a byte-at-a-time reference automaton, hence "
-                  "independent of chunking; truncation at FIN (also inside DATA) is UnexpectedEnd, never a clean end, never Pending")
+    level_text = ("Lean theorems (unbounded, all proved in full) over models of Frame::decode, FrameDecoder::decode, "
+                  "FrameStream::{poll_next,poll_data}, BufList advance/take_chunk: Frame::decode is the RFC 9114 §7.1 segmentation "
+                  "with the §7.2 payload grammar (SETTINGS error iff the spec says so); it satisfies the three decoder laws "
+                  "(stability, minimality, Incomplete(n) a sound lower bound); for every decoder with these laws, every script of "
+                  "non-empty chunks with Pending/FIN/RESET anywhere and every poll_next/poll_data call sequence, the invariant "
+                  "seen = consumed ++ buffer holds with the tokens handed out = those of a byte-at-a-time reference automaton over "
+                  "consumed, consumed offsets are segment boundaries, hence independent of chunking; after FIN no call is Pending and "
+                  "truncation (also inside DATA, also at a chunk boundary) ends the reader loop with UnexpectedEnd, never a clean end; "
+                  "the reference automaton agrees with the RFC oracle `observe`, so the reader loop's observations are those of "
+                  "`observe w ending` for all chunkings")
     level_note = ("trusted: Lean kernel + 3 standard axioms; hand model tied to the code by running real FrameStream over a scripted "
                   "RecvStream on the same scripts (all short strings over an 18-byte alphabet x all cut patterns x endings, "
                   "frame sequences with every type/length form, mutations, random call sequences); Cursor/BufList read-through is "
